@@ -216,9 +216,15 @@ impl GitConfigGet for Option<String> {
 
 impl GitConfigGet for bool {
     fn git_config_get(key: &str, git_config: &GitConfig) -> Option<Self> {
-        match git_config.config_from_env_var.get(key).map(|s| s.as_str()) {
-            Some("true") => Some(true),
-            Some("false") => Some(false),
+        // (the spellings git accepts for a boolean: `git -c delta.line-numbers=no` hands over "no")
+        match git_config
+            .config_from_env_var
+            .get(key)
+            .map(|s| s.to_ascii_lowercase())
+            .as_deref()
+        {
+            Some("true" | "yes" | "on" | "1") => Some(true),
+            Some("false" | "no" | "off" | "0") => Some(false),
             _ => git_config.config.get_bool(key).ok(),
         }
     }
